@@ -249,7 +249,7 @@ def native_build_run(ob, vals, outdir, repo=None):
     for i in incs:
         cmd += ["-I", str(i)]
     exe = outdir / "replay_native"
-    cmd += [str(unit), str(VERIF / "replay" / "native_main.c"), "-o", str(exe), "-lm"]
+    cmd += [str(unit), str(VERIF / "replay" / "native_main.c"), "-o", str(exe), "-lm", "-no-pie", "-Wl,--unresolved-symbols=ignore-all"]
     p = subprocess.run(cmd, capture_output=True, text=True)
     if p.returncode != 0:
         return dict(built=False, build_cmd=" ".join(cmd), output=p.stderr[-3000:], skipped_clauses=skipped), None
